@@ -66,7 +66,7 @@ func candidateClauses(vc *FnVC) map[int][]Clause {
 		}
 		for obj, bs := range vc.debugVal {
 			v, ok := obj.(*types.Var)
-			if !ok {
+			if !ok || v.IsField() {
 				continue
 			}
 			isPhiHere := false
